@@ -6,6 +6,12 @@ pub struct Timestamp(pub i128);
 pub enum NodeType { File, Dir, Symlink(u64), Dev(u64), Chardev(u64), Fifo, Socket }
 pub struct Metadata { pub size: u64, pub mtime: Option<Timestamp>, pub ctime: Option<Timestamp>, pub inode: u64 }
 pub struct Node { pub node_type: NodeType, pub meta: Metadata }
+impl Node {
+    // the type accessors of backend::node::Node (definitions)
+    pub fn is_dir(&self) -> (r: bool) ensures r == (self.node_type is Dir), { match self.node_type { NodeType::Dir => true, _ => false } }
+    pub fn is_file(&self) -> (r: bool) ensures r == (self.node_type is File), { match self.node_type { NodeType::File => true, _ => false } }
+    pub fn is_symlink(&self) -> (r: bool) ensures r == (self.node_type is Symlink), { match self.node_type { NodeType::Symlink(_) => true, _ => false } }
+}
 // a.zip(b).is_none_or(|(x, y)| x == y): std definitions of Option::zip / Option::is_none_or with THIS closure literal
 pub fn vzip_is_none_or_eq(a: Option<Timestamp>, b: Option<Timestamp>) -> (r: bool)
     ensures r == (a is None || b is None || a == b),
